@@ -44,7 +44,8 @@ static void row (void)
   typedef gch::small_vector<T, 1, AL> V1;
   typedef gch::small_vector<T> VDEF_STD;   // default argument with std::allocator
   VD v;
-  unsigned long aligned = (reinterpret_cast<std::uintptr_t> (v.data ()) % A == 0) ? 1 : 0;
+  struct Holder { char c; VD v; } h;   // a member after a char: its address is only as aligned as alignof (VD) demands
+  unsigned long aligned = (reinterpret_cast<std::uintptr_t> (v.data ()) % A == 0 && reinterpret_cast<std::uintptr_t> (h.v.data ()) % A == 0 && alignof (VD) % A == 0) ? 1 : 0;
   unsigned long icap = (VD::inline_capacity () == D && VD1::inline_capacity () == D + 1 && V0::inline_capacity () == 0) ? 1 : 0;
   std::printf ("%zu %zu %zu %zu %zu %zu %u %zu %zu %zu %zu %lu %lu %zu\n", S, A, sizeof (SizeT), K, (K ? KA : (std::size_t) 1),
                sizeof (V0), D, sizeof (VD), sizeof (VD1), sizeof (V1), alignof (VD), aligned, icap, sizeof (VDEF_STD));
@@ -66,10 +67,10 @@ def layout_grid(tier):
         for a in (1, 2, 4, 8, 16, 32, 64):
             if s % a:
                 continue
-            if tier == 'quick' and a > 16:
-                continue
             for w in ('std::uint8_t', 'std::uint16_t', 'std::uint32_t', 'std::uint64_t'):
                 for (k, ka) in states:
+                    if tier == 'quick' and a > 16 and (w != 'std::uint64_t' or k not in (0, 8)):
+                        continue     # over-aligned element types (extended alignment): a few rows in the quick tier, all in the thorough one
                     rows.append((s, a, w, k, ka))
     return rows
 
